@@ -28,6 +28,7 @@ def test_ids(wt):
 
 def main():
     src, prop = sys.argv[1], sys.argv[2]
+    tag = sys.argv[3] if len(sys.argv) > 3 else ""
     wt = f"/tmp/seedcheck-{prop}"
     sh(f"git -C /repo worktree remove --force {wt}")
     assert sh(f"git -C /repo worktree add --detach {wt}").returncode == 0
@@ -38,7 +39,7 @@ def main():
             d = os.path.join(src, x)
             if not os.path.isfile(os.path.join(d, "patch.diff")):
                 continue
-            sid = f"{prop}-{x}"
+            sid = f"{prop}-{tag}{x}"
             sh(f"git -C {wt} checkout -- . && git -C {wt} clean -fdq")
             demo = os.path.join(d, "demo.py")
             r0 = sh(f"PYTHONHASHSEED=0 /venv/bin/python {demo} {wt}", timeout=600)
